@@ -94,12 +94,13 @@ def sites_of(fn, skip_kinds=SKIP_KINDS_DEFAULT):
     # ordinal among equal (kind, what) in source order
     out.sort(key=lambda s: (s.span.cline, s.span.line, s.span.col, s.bb))
     counts = {}
-    base = strip_closure(fn.path)
+    # user actions embedded in the generated parser are keyed without their (unstable) action number
+    keypath = re.sub(r'::__action\d+', '::__action*', fn.path) if fn.generated else fn.path
     for s in out:
         k = (s.kind, s.what)
         n = counts.get(k, 0)
         counts[k] = n + 1
-        s.key = '%s|%s|%s' % (fn.path, s.kind, s.what) + '|#%d' % n
+        s.key = '%s|%s|%s' % (keypath, s.kind, s.what) + '|#%d' % n
     return out
 
 
@@ -109,8 +110,8 @@ def auto_discharge(site, prog):
     fn = site.fn
     # A4: generated LALRPOP code is the parser generator's responsibility (trusted base); the user actions it
     # calls are ordinary functions in grammar.rs and are inventoried normally.
-    if fn.generated or (site.span.file and '/out/parsers/' in site.span.file):
-        return 'A4: LALRPOP-generated module (trusted base)'
+    if (fn.generated or (site.span.file and '/out/parsers/' in site.span.file)) and not re.search(r'::__action\d+(::\{closure#\d+\})*$', fn.path):
+        return 'A4: LALRPOP-generated parser machinery (trusted base)'
     if site.kind == 'assert':
         t = site.raw
         msg = t['msg']
@@ -141,6 +142,9 @@ def auto_discharge(site, prog):
             if c is not None and 0 <= c < bits:
                 return 'A8: shift by constant %d < %d bits' % (c, bits)
         return None
+    # A10: Vec::insert at the constant index 0 is always in bounds
+    if site.kind == 'vecop' and site.call is not None and site.call.name() == 'insert' and len(site.call.args) > 1 and const_int(site.call.args[1]) == 0:
+        return 'A10: insert at constant index 0'
     if site.kind == 'unwrap' and site.call is not None:
         r = a3_unwrap_after_check(site, fn)
         if r:
